@@ -230,6 +230,36 @@ theorem roundtrip_tlb_Message (fuel : Nat) (v : Val)
       = .ok (v, rest) :=
   decode_encode _ generated_env_wf _ TongoGen.TlbTypes.wf_tlb_Message fuel v hd b' he
 
+/-- `roundtrip_<T>` for the transaction and account records and the wallet bodies (instances of
+`roundtrip_generated`; their `wf_<T>` obligations are regenerated on every run) -/
+theorem roundtrip_records :
+    let E := TongoGen.TlbTypes.env
+    ∀ T ∈ [TongoGen.TlbTypes.desc_tlb_Transaction, TongoGen.TlbTypes.desc_tlb_TransactionDescr,
+        TongoGen.TlbTypes.desc_tlb_HashUpdate, TongoGen.TlbTypes.desc_tlb_Account,
+        TongoGen.TlbTypes.desc_tlb_AccountStorage, TongoGen.TlbTypes.desc_tlb_StorageInfo,
+        TongoGen.TlbTypes.desc_tlb_ShardAccount, TongoGen.TlbTypes.desc_wallet_MessageV5Beta,
+        TongoGen.TlbTypes.desc_wallet_HighloadV2Message, TongoGen.TlbTypes.desc_wallet_MessageV3,
+        TongoGen.TlbTypes.desc_wallet_MessageV4],
+      ∀ (fuel : Nat) (v : Val), inDom E fuel T v = true → ∀ b' : Builder,
+        encode E fuel T v Builder.empty = .ok b' →
+        ∃ rest, decode E fuel T (Slice.ofCell b'.toCell) = .ok (v, rest) := by
+  intro E T hT fuel v hd b' he
+  have hw : wfTop E T = true := by
+    simp only [List.mem_cons, List.mem_nil_iff, or_false] at hT
+    rcases hT with rfl | rfl | rfl | rfl | rfl | rfl | rfl | rfl | rfl | rfl | rfl
+    · exact TongoGen.TlbTypes.wf_tlb_Transaction
+    · exact TongoGen.TlbTypes.wf_tlb_TransactionDescr
+    · exact TongoGen.TlbTypes.wf_tlb_HashUpdate
+    · exact TongoGen.TlbTypes.wf_tlb_Account
+    · exact TongoGen.TlbTypes.wf_tlb_AccountStorage
+    · exact TongoGen.TlbTypes.wf_tlb_StorageInfo
+    · exact TongoGen.TlbTypes.wf_tlb_ShardAccount
+    · exact TongoGen.TlbTypes.wf_wallet_MessageV5Beta
+    · exact TongoGen.TlbTypes.wf_wallet_HighloadV2Message
+    · exact TongoGen.TlbTypes.wf_wallet_MessageV3
+    · exact TongoGen.TlbTypes.wf_wallet_MessageV4
+  exact decode_encode _ generated_env_wf T hw fuel v hd b' he
+
 /-! ## CodecOK lemmas of the hand-written codecs, in readable form -/
 
 /-- **varuint_roundtrip**: `VarUInteger n` (n = 1..32) round-trips every value of every byte length 0..n-1. -/
